@@ -5,8 +5,10 @@
      r1     : the REAL layout observed afterwards [tree, br, repo];  rout : the real outcome class
      c0, c1 : the REAL content projections before / after, each component a canonical string:
               tip, revno, testaments (every revision of the ancestry with its strict testament sha1), parents, tags,
-              hasTree, wt (working tree entries), wtparents, changes (iter_changes against the basis), disk, tipTree
-   C52: history and tags always unchanged; the working tree unchanged where the layout keeps it; a created tree is a
+              hasTree, wt (working tree entries), wtparents, changes (iter_changes against the basis), disk, tipTree,
+              refs (a sequence of <<revision, strict testament sha1 | "ABSENT">> for every revision a tag or a pending
+              merge names; the law: what was there stays there, unchanged)
+   C52: history and tags always unchanged; every revision a tag / pending merge names still there with the same testament; the working tree unchanged where the layout keeps it; a created tree is a
    clean checkout of the tip.  Conformance (drift) only: a refused operation (or one that had to be interrupted:
    rout = "diverges") changes nothing, and layout / outcome are as planned. *)
 EXTENDS LayoutAlgebra, Json, IOUtils, SequencesExt
@@ -22,6 +24,7 @@ Failed(r) ==
     (IF r.c1.tip # r.c0.tip \/ r.c1.revno # r.c0.revno \/ r.c1.testaments # r.c0.testaments \/ r.c1.parents # r.c0.parents
      THEN {"history"} ELSE {})
     \cup (IF r.c1.tags # r.c0.tags THEN {"tags"} ELSE {})
+    \cup (IF \E e \in Rng(r.c0.refs) : e[2] # "ABSENT" /\ e \notin Rng(r.c1.refs) THEN {"referenced"} ELSE {})
     \cup (IF HasTree(r.l0) /\ HasTree(L1(r)) /\ (~r.c1.hasTree \/ r.c1.wt # r.c0.wt \/ r.c1.changes # r.c0.changes
                                                 \/ r.c1.disk # r.c0.disk \/ r.c1.wtparents # r.c0.wtparents)
           THEN {"tree-kept"} ELSE {})
